@@ -53,6 +53,9 @@ impl Prop for C17 {
     fn id(&self) -> &'static str {
         "C17"
     }
+    fn fuzz_target(&self) -> Option<&'static str> {
+        Some("fz_choices")
+    }
     fn stream_len(&self, _tier: Tier) -> usize {
         300
     }
